@@ -1043,6 +1043,16 @@ DEAD = [
 ]
 
 
+# conditionals of the kernels that have no counter although both outcomes occur (audit round 1, F5): they are
+# executed by every non-trivial decomposition; listed so that "every branch outcome" is read as "every outcome
+# of the 52 instrumented sites"
+UNCOUNTED = [
+    ("tql2", "inner test |e[m]| <= eps*tst1 of the search for a small sub-diagonal element", "its outcomes are those of counter 5 (m > l) and of the loop increment"),
+    ("hqr2", "while (l > low) left by its condition (no small sub-diagonal element down to row 0)", "true for every sweep on an unreduced window starting at row 0"),
+    ("hqr2", "if (i > m + 2) inside the clearing of H(i,i-2), H(i,i-3) before a double QR step", "false for i = m+2, true for the later i of every window of size >= 4"),
+]
+
+
 def _parse_trace(r):
     """(hits dict index -> count, log as list of floats) of a `trace` answer"""
     segs = r.split(";")
@@ -1162,6 +1172,7 @@ def coverage_extra(cases, answers):
         "branch_coverage_per_routine": per_routine,
         "branch_coverage": branches,
         "branch_coverage_dead_code": [{"routine": r, "branch": b, "why": w} for r, b, w in DEAD],
+        "branch_coverage_not_instrumented": [{"routine": r, "branch": b, "why": w} for r, b, w in UNCOUNTED],
         "branch_coverage_derived_conditions": derived,
         "exceptional_shifts_per_decomposition": {str(k): v for k, v in sorted(ex_hist.items())},
         "decompositions_traced": traced,
@@ -1209,6 +1220,9 @@ def write_coverage_md(paths, out):
           "; ".join("%s: %s" % (e["tier"], e["coverage"]["exceptional_shifts_per_decomposition"]) for e in evs), "",
           "## Branches without a counter (dead code in this port)", ""]
     for d in evs[0]["coverage"]["branch_coverage_dead_code"]:
+        L.append("* `%s`: %s — %s" % (d["routine"], d["branch"], d["why"]))
+    L += ["", "## Conditionals without a counter whose outcomes both occur", ""]
+    for d in evs[0]["coverage"].get("branch_coverage_not_instrumented", []):
         L.append("* `%s`: %s — %s" % (d["routine"], d["branch"], d["why"]))
     L += ["", "`getD`, the symmetry dispatch, `cdiv` and the `pow`/`exp` wrappers are transcribed in the model and tied",
           "bit for bit; their branch outcomes are counted from the answers (table above).", ""]
